@@ -224,8 +224,14 @@ Definition parse_bool_true (s : string) : bool :=
 Definition verbose (penv : list (string * string)) : bool := parse_bool_true (env_get penv "MAGEFILE_VERBOSE").
 
 Section History.
-Variable child_out : list string -> string.   (* the child's stdout as a function of its argv (external) *)
-Variable child_exit : list string -> nat.     (* the child's exit status as a function of its argv (external); not 0: the call fails *)
+(* The operating system and the child are EXTERNAL: which program the command word names (exec.LookPath through
+   PATH, the file system at that moment), whether it can be started, what it prints and how it exits are
+   functions of the process environment AT THE TIME OF THE CALL and of the argv the call hands over (argv[0] is
+   the expanded command word) - of nothing else: not of earlier calls, not of the closure's age.
+   (A child that cannot be started: empty stdout, status 1.  File-system changes are made visible to these
+   functions by the harness through an epoch variable in the environment.) *)
+Variable child_out : list (string * string) -> list string -> string.
+Variable child_exit : list (string * string) -> list string -> nat.   (* not 0: the call fails *)
 Variable fixed : bool.
 
 (* where the child's stdout goes.  RunCmd closure -> Run -> RunWith: os.Stdout if mg.Verbose() AT THE CALL, else
@@ -233,15 +239,15 @@ Variable fixed : bool.
    also when the child fails (cmd.go:88-92 returns the text together with the error) *)
 Definition finish_closure (k : kind) (penv : list (string * string)) (argv : list string) : obs :=
   match k with
-  | KRun => OCall argv None (if verbose penv then child_out argv else "") (child_exit argv)
-  | KOut => OCall argv (Some (trim_nl (child_out argv))) "" (child_exit argv)
+  | KRun => OCall argv None (if verbose penv then child_out penv argv else "") (child_exit penv argv)
+  | KOut => OCall argv (Some (trim_nl (child_out penv argv))) "" (child_exit penv argv)
   end.
 Definition finish_direct (f : fnsel) (penv : list (string * string)) (argv : list string) : obs :=
   match f with
-  | FRun | FRunWith => OCall argv None (if verbose penv then child_out argv else "") (child_exit argv)
-  | FRunV | FRunWithV => OCall argv None (child_out argv) (child_exit argv)
-  | FOutput | FOutputWith => OCall argv (Some (trim_nl (child_out argv))) "" (child_exit argv)
-  | FExec => OCall argv (Some (child_out argv)) "" (child_exit argv)   (* the caller's own writer receives the raw bytes *)
+  | FRun | FRunWith => OCall argv None (if verbose penv then child_out penv argv else "") (child_exit penv argv)
+  | FRunV | FRunWithV => OCall argv None (child_out penv argv) (child_exit penv argv)
+  | FOutput | FOutputWith => OCall argv (Some (trim_nl (child_out penv argv))) "" (child_exit penv argv)
+  | FExec => OCall argv (Some (child_out penv argv)) "" (child_exit penv argv)   (* the caller's own writer receives the raw bytes *)
   end.
 
 (* the code a call operation runs, and what the caller and os.Stdout get, given the child's argv *)
